@@ -34,6 +34,21 @@ var c10Menu = func() []c10Member {
 	for _, g := range []string{`"asset":{"version":"1.0"}`, `"asset":{"version":"2.0"}`, `"asset":{"generator":"g","version":"2.0"}`, `"asset":{"extras":[[1]],"version":"2.0"}`} {
 		m = append(m, c10Member{g, "gltf"})
 	}
+	// deciding members whose own value (or an earlier sibling inside the same
+	// object) is drawn from a small value grammar: the verdict must not depend on
+	// what the deciding member contains
+	vals := []string{`{"name":"x"}`, `[{"time":1}]`, `{"a":{"b":[{}]}}`, `[[{"k":"v"}],2]`, `[1,2]`, `"s"`}
+	for _, key := range []string{"version", "creator", "entries"} {
+		for _, v := range vals {
+			m = append(m, c10Member{`"log":{"` + key + `":` + v + `}`, "har"})
+		}
+	}
+	for _, v := range vals[:4] {
+		m = append(m, c10Member{`"log":{"pages":` + v + `,"entries":[]}`, "har"})
+		m = append(m, c10Member{`"asset":{"extras":` + v + `,"version":"2.0"}`, "gltf"})
+		m = append(m, c10Member{`"asset":{"version":"1.0","extras":` + v + `}`, "gltf"})
+	}
+	c10CoreMenu = len(m) // members beyond this index are siblings / decoys
 	for _, d := range []string{
 		`"a":1`, `"b":"s"`, `"c":null`, `"e":[]`, `"f":[1]`, `"g":[[1],[2]]`, `"h":[{"type":"Feature"}]`, `"i":{}`,
 		`"j":{"type":"Point"}`, `"k":{"log":{"version":1}}`, `"l":{"asset":{"version":"2.0"}}`, `"m":[1,{"a":[2]},3]`,
@@ -46,6 +61,12 @@ var c10Menu = func() []c10Member {
 	}
 	return m
 }()
+
+var c10CoreMenu int
+
+// c10Rich marks the deciding members generated from the value grammar; they
+// take part in selections of at most 2 members in the quick tier.
+func c10Rich(i int) bool { return i >= 18 && i < c10CoreMenu }
 
 var c10Prio = map[string]int{"geo": 3, "har": 2, "gltf": 1, "json": 0}
 
@@ -243,6 +264,16 @@ func recFrom2(c *core.Ctx, sel *[]int, kmax int, render func([]int, int, bool), 
 	}
 	for i := range c10Menu {
 		ok := true
+		if !c.Thorough() && len(s) >= 2 {
+			for _, j := range s {
+				if c10Rich(j) {
+					ok = false
+				}
+			}
+			if c10Rich(i) {
+				ok = false
+			}
+		}
 		for _, j := range s {
 			if j == i || (c10Menu[j].kind != "" && c10Menu[j].kind == c10Menu[i].kind) {
 				ok = false
